@@ -9,7 +9,7 @@ import sys
 import xml.etree.ElementTree as ET
 
 from .. import simkit
-from ..pipeline import gen_base_case, run_pipeline
+from ..pipeline import Monitor, gen_base_case, run_pipeline
 from ..simkit import Streams
 
 ID = "C18"
@@ -57,8 +57,71 @@ def gen_case(run_seed: int, tier: str) -> dict:
     return case
 
 
+_ASSIGN = re.compile(r"^\s*\w+\s*=\s*(?!=)")
+KNOWN_MINIMIZE = "second-party:failure:AssertionError:minimization-removed-statement-on-asserted-object"
+
+
+def _rhs(code: str) -> str:
+    return _ASSIGN.sub("", code.strip(), count=1)
+
+
+def _entries(t):
+    import libcst as cst
+
+    return [(cst.Module(body=[s.node]).code.strip(), s.bound_variable, set(s.used_variables())) for s in t.statements()]
+
+
+class MinimizeRecorder(Monitor):
+    """Records what generator._minimize removed from each test case (diagnosis only, no verdicts)."""
+
+    def __init__(self):
+        self.keep = []      # hold the TestCase objects so that ids stay unique
+        self.before = {}    # id(test_case) -> entries before _minimize
+        self.exported = []  # per exported test function: (id(test_case), entries before export)
+
+    def before_minimize(self, run, suite):
+        for c in suite.test_case_chromosomes:
+            self.keep.append(c.test_case)
+            self.before[id(c.test_case)] = _entries(c.test_case)
+
+    def before_export(self, run, suite):
+        self.exported = []
+        for c in suite.test_case_chromosomes:
+            self.keep.append(c.test_case)
+            self.exported.append((id(c.test_case), _entries(c.test_case)))
+
+    def removed_reader_of(self, test_index: int, failing_line: str):
+        """Statements of test #test_index that _minimize removed although they read a variable the failing assertion
+        (transitively) depends on - i.e. calls that may have changed the state of an asserted object."""
+        if not 0 <= test_index < len(self.exported):
+            return []
+        tid, after = self.exported[test_index]
+        pre = self.before.get(tid)
+        if pre is None:
+            return []
+        left = {}
+        for code, _b, _u in after:
+            left[_rhs(code)] = left.get(_rhs(code), 0) + 1
+        removed = []
+        for code, b, u in pre:
+            if left.get(_rhs(code), 0) > 0:
+                left[_rhs(code)] -= 1
+            else:
+                removed.append((code, b, u))
+        deps = set(re.findall(r"\bvar_\d+\b", failing_line))
+        grew = bool(deps)
+        while grew:
+            grew = False
+            for _code, b, u in pre:
+                if b in deps and not u <= deps:
+                    deps |= u
+                    grew = True
+        return [code for code, _b, u in removed if u & deps]
+
+
 def run_case(case: dict) -> dict:
-    run, res = run_pipeline(case, [], keep_dir=True)
+    rec = MinimizeRecorder()
+    run, res = run_pipeline(case, [rec], keep_dir=True)
     try:
         violation = res["violation"]
         tests = passed = xfailed = 0
@@ -94,9 +157,21 @@ def run_case(case: dict) -> dict:
                                       r"TypeError|AssertionError|XPASS\(strict\)|Failed: DID NOT RAISE|ValueError|"
                                       r"KeyError|IndexError|ZeroDivisionError|OverflowError)", msg)
                         kind = m.group(1) if m else "other"
+                        sig = f"second-party:{ch.tag}:{kind}"
+                        note = ""
+                        if sig == "second-party:failure:AssertionError":
+                            # diagnosis for known_findings.json: was a statement that reads a variable feeding the
+                            # failing assertion removed by generator._minimize (after the assertion was generated)?
+                            fl = next((ln[1:].strip() for ln in msg.splitlines() if ln.startswith(">")), "")
+                            tm = re.fullmatch(r"test_(\d+)", tcase.get("name") or "")
+                            culprits = rec.removed_reader_of(int(tm.group(1)), fl) if tm and fl else []
+                            if culprits:
+                                sig = KNOWN_MINIMIZE
+                                note = (f"failing assertion `{fl}` was generated before generator._minimize, which then "
+                                        f"removed {culprits!r} from this test case\n")
                         if violation is None:
-                            violation = {"signature": f"second-party:{ch.tag}:{kind}",
-                                         "message": f"{tcase.get('name')} {ch.tag}: {msg[-1200:]}\n--- file ---\n{text[-2500:]}"}
+                            violation = {"signature": sig,
+                                         "message": f"{tcase.get('name')} {ch.tag}: {note}{msg[-1200:]}\n--- file ---\n{text[-2500:]}"}
                     elif "skipped" in kinds:
                         if (kinds["skipped"].get("type") or "") == "pytest.xfail":
                             xfailed += 1
